@@ -288,6 +288,39 @@ class ConstructFamily(Family):
         return jobs
 
 
+class FaultFamily(Family):
+    """exhaustive fault enumeration: every allocation of every allocating step of valid
+    vector / element histories fails in turn (C17)"""
+
+    def __init__(self, nlists=14, nbase=2):
+        super().__init__()
+        self.nlists, self.nbase = nlists, nbase
+
+    def jobs(self, rng, tier):
+        mult = 1 if tier == "quick" else 4
+        kinds = [K_PMR, (1, 1, 1, 0, 0), (0, 1, 0, 0, 1), (1, 0, 1, 0, 1), K_DEFAULT, (1, 0, 0, 0, 0)]
+        if tier != "quick":
+            kinds = gen.AKINDS_ALL
+        jobs = []
+        Ls = self.lists(rng, tier, self.nlists)
+        rng.shuffle(Ls)
+        for li, L in enumerate(Ls[:(18 if tier == "quick" else 70)]):
+            K = kinds[li % len(kinds)]
+            maxk = 3 if lay.has_varying(L) else 2
+            scripts = []
+            for _ in range(self.nbase * mult):
+                for base, st in (gen.gen_special(L, K, rng, rng.randrange(5, 14)), gen.gen_elem(L, K, rng),
+                                 gen.gen_history(L, K, rng, rng.randrange(4, 10))):
+                    base = list(base)
+                    while base and (base[-1].startswith("destroy") or base[-1].startswith("edestroy")):
+                        base.pop()          # only the final clean-up; the variants destroy everything themselves
+                    for v in gen.fault_variants(base, maxk):
+                        scripts.append((gen.script_id(v), v, None))
+                        self.add_stats({"fault-at-" + v[len(v) - 9 - (1 if v[-9].split()[0] == v[-10].split()[0] else 0)].split()[0]: 1})
+            jobs.append(Job(L, K, scripts, tag="fault"))
+        return jobs
+
+
 class Multi(Family):
     def __init__(self, *fams):
         super().__init__()
@@ -402,3 +435,4 @@ FAMILIES["C14"] = CompareFamily()
 FAMILIES["C11"] = ProxyFamily()
 FAMILIES["C12"] = ElemFamily()
 FAMILIES["C15"] = ConstructFamily()
+FAMILIES["C17"] = FaultFamily()
